@@ -247,7 +247,7 @@ PairRowBudget == IF Profile = "quick" THEN 4 ELSE 5
 BinaryPairs(profile) == {p \in TablesOf(LeftSchema, 0, PairMaxRows, T1) \X TablesOf(RightSchema, 0, PairMaxRows, T2) :
                    Len(p[1].rows) + Len(p[2].rows) <= PairRowBudget}
 (* each operand: no index, index on the first column, index on a later column (where values are unique) *)
-IndexedRowBudget == 4
+IndexedRowBudget == IF Profile = "quick" THEN 3 ELSE 4
 IndexPairs(p) == IF Len(p[1].rows) + Len(p[2].rows) <= IndexedRowBudget
                  THEN IndexChoices(p[1]) \X IndexChoices(p[2]) ELSE {<<"", "">>}
 
@@ -315,6 +315,7 @@ PairClass(t, o) == TagIf(Len(t.rows) = 0, "left-zero-rows") \cup TagIf(Len(o.row
 (* the result of appended / inner_join keeps the receiver's index_name: does the result still have unique index values? *)
 IndexDupClass(t, result) ==
     TagIf(t.index # "" /\ Cardinality(Range(Col(result, t.index))) # Len(result.rows), "result-index-not-unique")
+    \cup TagIf(t.index # "" /\ None \in Range(Col(result, t.index)), "result-index-has-missing")
 SharedOrderClass(t, o) ==
     TagIf(SelectSeq(t.header, LAMBDA c : c \in Range(o.header)) # SelectSeq(o.header, LAMBDA c : c \in Range(t.header)),
           "shared-columns-order-differs")
